@@ -1,6 +1,301 @@
 /- Helper lemmas for C14/C15 (structure of `validate`). -/
 import SigV4.Spec.ValidateSpec
+import SigV4.Lemmas.CtEq
 
 namespace SigV4
+
+/-! ### `splitFirst` / `splitOn` and the credential scope -/
+
+theorem splitOn_of_splitFirst_none (sep : UInt8) (x : Bytes) (h : (splitFirst sep x).2 = none) :
+    splitOn sep x = [x] := by
+  induction x with
+  | nil => rfl
+  | cons c cs ih =>
+    unfold splitFirst at h
+    unfold splitOn
+    by_cases hc : c = sep
+    · simp [hc] at h
+    · simp only [hc, if_false] at h ⊢
+      rw [ih h]
+
+/-- Once `prevalidate` accepted the credential scope, `stringToSign` cannot hit its panic site. -/
+theorem stringToSign_ok_of_prevalidate {a : Authenticator} {region service : Bytes} {now : Int}
+    (h : prevalidate a region service now = .ok ()) : ∃ sts, stringToSign a = .ok sts := by
+  unfold stringToSign
+  rcases hs : splitFirst 0x2F a.credential with ⟨x, _ | scope⟩
+  · exfalso
+    have h1 : splitOn 0x2F a.credential = [a.credential] :=
+      splitOn_of_splitFirst_none _ _ (by rw [hs])
+    unfold prevalidate at h
+    rw [h1] at h
+    split at h
+    · cases h
+    · split at h
+      · cases h
+      · cases h
+  · exact ⟨_, rfl⟩
+
+/-! ### `getSigningKey` -/
+
+theorem getSigningKey_not_ready {σ : Type} (P : Provider σ) (s s' : σ) (a : Authenticator)
+    (region service : Bytes) (e : ProvErr) (hr : P.ready s = (some e, s')) :
+    getSigningKey P s a region service = { out := .err e.toKind, state := s', calls := [] } := by
+  unfold getSigningKey
+  simp only [hr]
+
+theorem getSigningKey_call_err {σ : Type} (P : Provider σ) (s s' s'' : σ) (a : Authenticator)
+    (region service : Bytes) (e : ProvErr) (hr : P.ready s = (none, s'))
+    (hc : P.call s' (providerReqOf a region service) = (.error e, s'')) :
+    getSigningKey P s a region service =
+      { out := .err e.toKind, state := s'', calls := [providerReqOf a region service] } := by
+  unfold getSigningKey
+  unfold providerReqOf at hc
+  simp only [hr, hc]
+  rfl
+
+theorem getSigningKey_call_ok {σ : Type} (P : Provider σ) (s s' s'' : σ) (a : Authenticator)
+    (region service : Bytes) (resp : ProviderResp) (hr : P.ready s = (none, s'))
+    (hc : P.call s' (providerReqOf a region service) = (.ok resp, s'')) :
+    getSigningKey P s a region service =
+      { out := .ok resp, state := s'', calls := [providerReqOf a region service] } := by
+  unfold getSigningKey
+  unfold providerReqOf at hc
+  simp only [hr, hc]
+  rfl
+
+/-- Full case analysis of `getSigningKey`. -/
+theorem getSigningKey_cases {σ : Type} (P : Provider σ) (s : σ) (a : Authenticator)
+    (region service : Bytes) :
+    (∃ e, (P.ready s).1 = some e ∧
+      getSigningKey P s a region service =
+        { out := .err e.toKind, state := (P.ready s).2, calls := [] }) ∨
+    ((P.ready s).1 = none ∧ ∃ e,
+      (P.call (P.ready s).2 (providerReqOf a region service)).1 = .error e ∧
+      getSigningKey P s a region service =
+        { out := .err e.toKind,
+          state := (P.call (P.ready s).2 (providerReqOf a region service)).2,
+          calls := [providerReqOf a region service] }) ∨
+    ((P.ready s).1 = none ∧ ∃ resp,
+      (P.call (P.ready s).2 (providerReqOf a region service)).1 = .ok resp ∧
+      getSigningKey P s a region service =
+        { out := .ok resp,
+          state := (P.call (P.ready s).2 (providerReqOf a region service)).2,
+          calls := [providerReqOf a region service] }) := by
+  rcases hr : P.ready s with ⟨_ | e, s'⟩
+  · rcases hc : P.call s' (providerReqOf a region service) with ⟨e | resp, s''⟩
+    · exact .inr (.inl ⟨rfl, e, rfl, getSigningKey_call_err P s s' s'' a region service e hr hc⟩)
+    · exact .inr (.inr ⟨rfl, resp, rfl, getSigningKey_call_ok P s s' s'' a region service resp hr hc⟩)
+  · exact .inl ⟨e, rfl, getSigningKey_not_ready P s s' a region service e hr⟩
+
+/-- `getSigningKey` makes no call, or exactly the one call `providerReqOf` after readiness. -/
+theorem getSigningKey_calls {σ : Type} (P : Provider σ) (s : σ) (a : Authenticator)
+    (region service : Bytes) :
+    (getSigningKey P s a region service).calls = [] ∨
+      ((P.ready s).1 = none ∧
+        (getSigningKey P s a region service).calls = [providerReqOf a region service]) := by
+  rcases getSigningKey_cases P s a region service with ⟨e, _, h⟩ | ⟨hr, e, _, h⟩ | ⟨hr, resp, _, h⟩
+  · left; rw [h]
+  · right; rw [h]; exact ⟨hr, rfl⟩
+  · right; rw [h]; exact ⟨hr, rfl⟩
+
+/-! ### `validateSignature` -/
+
+theorem validateSignature_prevalidate_err {σ : Type} (H : Bytes → Bytes) (P : Provider σ) (s : σ)
+    (a : Authenticator) (region service : Bytes) (now : Int) (k : ErrKind)
+    (h : prevalidate a region service now = .err k) :
+    validateSignature H P s a region service now = { out := .err k, state := s, calls := [] } := by
+  unfold validateSignature
+  simp only [h]
+
+theorem validateSignature_prevalidate_panic {σ : Type} (H : Bytes → Bytes) (P : Provider σ) (s : σ)
+    (a : Authenticator) (region service : Bytes) (now : Int) (p : String)
+    (h : prevalidate a region service now = .panic p) :
+    validateSignature H P s a region service now = { out := .panic p, state := s, calls := [] } := by
+  unfold validateSignature
+  simp only [h]
+
+/-- After the pre-checks, `validateSignature` is `getSigningKey` followed by the comparison. -/
+theorem validateSignature_of_prevalidate_ok {σ : Type} (H : Bytes → Bytes) (P : Provider σ) (s : σ)
+    (a : Authenticator) (region service : Bytes) (now : Int) (sts : Bytes)
+    (h : prevalidate a region service now = .ok ()) (hs : stringToSign a = .ok sts) :
+    validateSignature H P s a region service now =
+      { out :=
+          match (getSigningKey P s a region service).out with
+          | .err k => .err k
+          | .panic p => .panic p
+          | .ok resp =>
+            if a.signature = hexLower (hmac H resp.key sts) then .ok resp
+            else .err .SignatureDoesNotMatch,
+        state := (getSigningKey P s a region service).state,
+        calls := (getSigningKey P s a region service).calls } := by
+  unfold validateSignature
+  simp only [h, hs]
+  split
+  · rename_i heq; simp only [heq]
+  · rename_i heq; simp only [heq]
+  · rename_i resp heq
+    simp only [heq]
+    have hct : (ctEq a.signature (hexLower (hmac H resp.key sts))).1 = true ↔
+        a.signature = hexLower (hmac H resp.key sts) := by
+      unfold ctEq
+      by_cases hl : a.signature.length = (hexLower (hmac H resp.key sts)).length
+      · have := ctFold_fst_eq_zero a.signature (hexLower (hmac H resp.key sts)) 0 hl
+        simp only [hl, ne_eq, not_true_eq_false, if_false, beq_iff_eq, this, true_and]
+      · have hne : a.signature ≠ hexLower (hmac H resp.key sts) := fun e => hl (by rw [e])
+        simp [hl, hne]
+    by_cases hsig : a.signature = hexLower (hmac H resp.key sts)
+    · rw [if_pos (hct.2 hsig), if_pos hsig]
+    · rw [if_neg (fun h' => hsig (hct.1 h')), if_neg hsig]
+
+/-! ### `validate` -/
+
+/-- The part of `validate` that follows a successfully built authenticator. -/
+def finish {σ : Type} (req : Request) (fp : FromParts) (r : Run σ ProviderResp) : Run σ Returned :=
+  { out := r.out.map fun resp =>
+      { method := req.method, headers := req.headers, rebuiltUri := fp.rebuiltUri,
+        body := fp.body, identity := resp.identity },
+    state := r.state, calls := r.calls }
+
+theorem validate_of_authOf_err {σ : Type} (H : Bytes → Bytes) (cfg : Config) (P : Provider σ) (s : σ)
+    (req : Request) (k : ErrKind) (h : authOf H cfg req = .err k) :
+    validate H cfg P s req = { out := .err k, state := s, calls := [] } := by
+  unfold authOf at h
+  unfold validate
+  split at h
+  · rename_i fp hfp
+    simp only [hfp, h]
+  · rename_i k' hfp
+    cases h
+    simp only [hfp]
+  · cases h
+
+theorem validate_of_authOf_panic {σ : Type} (H : Bytes → Bytes) (cfg : Config) (P : Provider σ) (s : σ)
+    (req : Request) (p : String) (h : authOf H cfg req = .panic p) :
+    validate H cfg P s req = { out := .panic p, state := s, calls := [] } := by
+  unfold authOf at h
+  unfold validate
+  split at h
+  · rename_i fp hfp
+    simp only [hfp, h]
+  · cases h
+  · rename_i p' hfp
+    cases h
+    simp only [hfp]
+
+theorem validate_of_authOf_ok {σ : Type} (H : Bytes → Bytes) (cfg : Config) (P : Provider σ) (s : σ)
+    (req : Request) (a : Authenticator) (h : authOf H cfg req = .ok a) :
+    ∃ fp, fromRequestParts H cfg.opts cfg.other req = .ok fp ∧
+      getAuthenticator H cfg.reqs fp.creq = .ok a ∧
+      validate H cfg P s req =
+        finish req fp (validateSignature H P s a cfg.region cfg.service cfg.now) := by
+  unfold authOf at h
+  split at h
+  · rename_i fp hfp
+    refine ⟨fp, hfp, h, ?_⟩
+    unfold validate finish
+    simp only [hfp, h]
+    split <;> rename_i ho <;> simp only [ho, Outcome.map_ok, Outcome.map_err, Outcome.map_panic]
+  · cases h
+  · cases h
+
+/-- Trichotomy for `authOf`, in the shape `validate` consumes it. -/
+theorem authOf_cases (H : Bytes → Bytes) (cfg : Config) (req : Request) :
+    (∃ a, authOf H cfg req = .ok a) ∨ (∃ k, authOf H cfg req = .err k) ∨
+      (∃ p, authOf H cfg req = .panic p) := by
+  cases authOf H cfg req with
+  | ok a => exact .inl ⟨a, rfl⟩
+  | err k => exact .inr (.inl ⟨k, rfl⟩)
+  | panic p => exact .inr (.inr ⟨p, rfl⟩)
+
+/-- Everything there is to know about one validation, in one statement. Either the request is
+defective (no authenticator, or a failing pre-check): nothing happens to the provider and the
+outcome is not a success; or it has an authenticator `a` passing the pre-checks and the run is
+`getSigningKey` followed by the signature comparison. -/
+theorem validate_cases {σ : Type} (H : Bytes → Bytes) (cfg : Config) (P : Provider σ) (s : σ)
+    (req : Request) :
+    ((validate H cfg P s req).calls = [] ∧ (validate H cfg P s req).state = s ∧
+      (∀ r, (validate H cfg P s req).out ≠ .ok r) ∧
+      ((∀ a, authOf H cfg req ≠ .ok a) ∨
+        ∃ a, authOf H cfg req = .ok a ∧ prevalidate a cfg.region cfg.service cfg.now ≠ .ok ())) ∨
+    (∃ a fp sts, authOf H cfg req = .ok a ∧
+      fromRequestParts H cfg.opts cfg.other req = .ok fp ∧
+      prevalidate a cfg.region cfg.service cfg.now = .ok () ∧ stringToSign a = .ok sts ∧
+      validate H cfg P s req =
+        finish req fp
+          { out :=
+              match (getSigningKey P s a cfg.region cfg.service).out with
+              | .err k => .err k
+              | .panic p => .panic p
+              | .ok resp =>
+                if a.signature = hexLower (hmac H resp.key sts) then .ok resp
+                else .err .SignatureDoesNotMatch,
+            state := (getSigningKey P s a cfg.region cfg.service).state,
+            calls := (getSigningKey P s a cfg.region cfg.service).calls }) := by
+  rcases authOf_cases H cfg req with ⟨a, ha⟩ | ⟨k, hk⟩ | ⟨p, hp⟩
+  · obtain ⟨fp, hfp, _, hv⟩ := validate_of_authOf_ok H cfg P s req a ha
+    cases hpre : prevalidate a cfg.region cfg.service cfg.now with
+    | ok u =>
+      cases u
+      obtain ⟨sts, hsts⟩ := stringToSign_ok_of_prevalidate hpre
+      refine .inr ⟨a, fp, sts, ha, hfp, hpre, hsts, ?_⟩
+      rw [hv, validateSignature_of_prevalidate_ok H P s a _ _ _ sts hpre hsts]
+    | err k =>
+      left
+      rw [hv, validateSignature_prevalidate_err H P s a _ _ _ k hpre]
+      refine ⟨rfl, rfl, ?_, .inr ⟨a, ha, ?_⟩⟩
+      · intro r hr; simp [finish] at hr
+      · rw [hpre]; intro h'; cases h'
+    | panic p =>
+      left
+      rw [hv, validateSignature_prevalidate_panic H P s a _ _ _ p hpre]
+      refine ⟨rfl, rfl, ?_, .inr ⟨a, ha, ?_⟩⟩
+      · intro r hr; simp [finish] at hr
+      · rw [hpre]; intro h'; cases h'
+  · left
+    rw [validate_of_authOf_err H cfg P s req k hk]
+    refine ⟨rfl, rfl, ?_, .inl ?_⟩
+    · intro r hr; cases hr
+    · intro a ha; rw [hk] at ha; cases ha
+  · left
+    rw [validate_of_authOf_panic H cfg P s req p hp]
+    refine ⟨rfl, rfl, ?_, .inl ?_⟩
+    · intro r hr; cases hr
+    · intro a ha; rw [hp] at ha; cases ha
+
+/-- Inversion of a successful validation. -/
+theorem validate_ok_inv {σ : Type} (H : Bytes → Bytes) (cfg : Config) (P : Provider σ) (s : σ)
+    (req : Request) (r : Returned) (h : (validate H cfg P s req).out = .ok r) :
+    ∃ a fp resp sts, authOf H cfg req = .ok a ∧
+      fromRequestParts H cfg.opts cfg.other req = .ok fp ∧
+      prevalidate a cfg.region cfg.service cfg.now = .ok () ∧
+      (P.ready s).1 = none ∧
+      (P.call (P.ready s).2 (providerReqOf a cfg.region cfg.service)).1 = .ok resp ∧
+      stringToSign a = .ok sts ∧ a.signature = hexLower (hmac H resp.key sts) ∧
+      r = { method := req.method, headers := req.headers, rebuiltUri := fp.rebuiltUri,
+            body := fp.body, identity := resp.identity } := by
+  rcases validate_cases H cfg P s req with ⟨_, _, hno, _⟩ | ⟨a, fp, sts, ha, hfp, hpre, hsts, hv⟩
+  · exact absurd h (hno r)
+  · rw [hv] at h
+    simp only [finish] at h
+    rcases getSigningKey_cases P s a cfg.region cfg.service with
+      ⟨e, _, hg⟩ | ⟨_, e, _, hg⟩ | ⟨hr, resp, hcall, hg⟩
+    · rw [hg] at h; cases h
+    · rw [hg] at h; cases h
+    · rw [hg] at h
+      simp only at h
+      by_cases hsig : a.signature = hexLower (hmac H resp.key sts)
+      · rw [if_pos hsig] at h
+        simp only [Outcome.map_ok, Outcome.ok.injEq] at h
+        exact ⟨a, fp, resp, sts, ha, hfp, hpre, hr, hcall, hsts, hsig, h.symm⟩
+      · rw [if_neg hsig] at h; cases h
+
+/-! ### `validateMany` -/
+
+theorem validateMany_cons {σ : Type} (H : Bytes → Bytes) (P : Provider σ) (s : σ) (cfg : Config)
+    (req : Request) (rest : List (Config × Request)) :
+    validateMany H P s ((cfg, req) :: rest) =
+      (((validate H cfg P s req).out, (validate H cfg P s req).calls)
+          :: (validateMany H P (validate H cfg P s req).state rest).1,
+        (validateMany H P (validate H cfg P s req).state rest).2) := rfl
 
 end SigV4
